@@ -65,7 +65,8 @@ def build(pid, conf):
     ov = os.path.join(BUILD, "overlay-" + pid)
     extra = os.environ.get("VERIF_EXTRA_OVERLAY")
     if conf.get("overlay"):
-        r = sh(["go", "run", "./tools/mkoverlay", "-repo", REPO, "-out", ov] + (["-extra", extra] if extra else []), cwd=HARNESS,
+        pk = conf.get("overlay_pkgs")
+        r = sh(["go", "run", "./tools/mkoverlay", "-repo", REPO, "-out", ov] + (["-extra", extra] if extra else []) + (["-pkgs", ",".join(pk)] if pk else []), cwd=HARNESS,
                stdout=subprocess.PIPE, stderr=subprocess.STDOUT, text=True)
         if r.returncode != 0:
             log("INCONCLUSIVE: overlay generation failed\n" + r.stdout[-3000:])
